@@ -219,7 +219,7 @@ def encode_path_rules(ctx):
     R.analysed["encode_path_functions"] = len(reach)
     R.analysed.update({"callgraph_" + k: v for k, v in cg.stats().items()})
     R.rule("C02-D2 order preserving encode path", 40, "no sorted/sort/reversed/reverse/set on the encode path")
-    R.rule("C02-D2b cbor2.dumps options", 2, "every cbor2.dumps on the encode path uses default (definite, non-canonical) options")
+    R.rule("C02-D2b cbor2.dumps options", 1, "every cbor2.dumps on the encode path uses default (definite, non-canonical) options")
     dumps_sites = 0
     for fq, (f, pred) in sorted(reach.items()):
         if f.name in ("to_obj", "from_cbor", "pretty_format_obj"):
@@ -447,6 +447,7 @@ def cbstr_rule(ctx):
                 R.check("C02-D4 cbstr one layer", bad_ is None, "Cbstr.to_cbor on contents of 0 .. 70000 bytes", mod=m, node=fi.node, function=ctx.fq(fi),
                         expected="the shortest-form byte string holding super().to_cbor(), as cbor2.dumps gives it", found=bad_ or "")
                 ok = None
+                ctx.cbstr_by_grid = True  # the wrapper is decided here: the form rules for encoders (D5 / D6) do not apply to it
             except (_Unknown, _Raised, TypeError, ValueError):
                 ok = False
     if ok is not None:
@@ -490,6 +491,8 @@ def generic_encoder_rules(ctx):
             if f.name == "to_cbor" and f.cls is not None:
                 encoders.append(f)
     for f in sorted(encoders, key=lambda f: f.fq):
+        if getattr(ctx, "cbstr_by_grid", False) and "cbstr.<locals>." in f.qualname:
+            continue
         outs = ev.outcomes(f)
         rets = [o for o in outs if o.kind == "return"]
         fq = ctx.fq(f)
